@@ -14,11 +14,11 @@ QUICK = {
                                     "copy": 5, "append": 6, "idle": 5, "done": 5, "noop": 10, "restart": 2}),
    }
 THOROUGH = {
-    "exhaustive": [("2sess-1mbox-3msgs-depth9", dict(depth=9, maxid=3, flags='{{"Deleted"}, {"Seen"}}')),
+    "exhaustive": [("2sess-1mbox-3msgs-depth8", dict(depth=8, maxid=3, flags='{{"Deleted"}, {"Seen"}}')),
                    ("2sess-2mbox-depth6", dict(depth=6, maxid=4, mbox=("inbox", "b"), acts=ALL))],
     "simulate": [("2mbox", dict(mbox=("inbox", "b"), maxid=8, maxpend=8, sets="SetsMedium", acts=ALL,
-                                 flags='{{"Deleted"}, {"Seen"}, {"Flagged", "k1"}}'), 1200, 32)],
-    "random": 1500,
+                                 flags='{{"Deleted"}, {"Seen"}, {"Flagged", "k1"}}'), 800, 32)],
+    "random": 800,
     "gen": dict(length=50, weights={"deliver": 22, "poll": 10, "store": 12, "fetchbody": 6, "expunge": 8, "move": 5,
                                     "copy": 5, "append": 6, "idle": 5, "done": 5, "noop": 10, "restart": 2}),
     "tlc_timeout": 3000,
